@@ -203,8 +203,12 @@ def stream_large(ctx):
         for ei, (label, lt, sk, fn) in enumerate(eps_list):
             if ctx.quick:
                 sizes = [2 ** 14 + 1] + ([2 ** 16 + 1] if ei % 8 == 0 or label.split(".")[1] in ("Jr", "euler", "jinvp") else [])
-                # round 5 (class 34): one size beyond 2^17 with a non-trivial remainder for every block size 2^k, k ≤ 17 (a sixth of the entries, rotating with the seed)
-                sizes += [2 ** 17 + 37] if (ei + ctx.seed) % 6 == 1 else []
+                # round 5 (class 34): one size beyond 2^17 with a non-trivial remainder for every block size 2^k, k ≤ 17 (all cheap entries; a sixth of the expensive ones, rotating with the seed)
+                op = label.split(".")[1]
+                cheap = op in ("Inv", "tensor", "quat2unit", "mul", "act3", "act4", "alg_add") or (lt in GROUPS and op in ("rotation", "translation", "scale", "euler")) \
+                    or (lt in ("SO3", "RxSO3") and op in ("add", "retr"))            # < 0.05 s per call at this size: every seed
+                if cheap or (ei + ctx.seed) % 6 == 1:
+                    sizes = [2 ** 14 + 1, 2 ** 17 + 37]          # subsumes 2^16+1 (full batch vs tail block and single items)
             else:
                 sizes = sizes_all + [2 ** 17 + 37, 2 ** 18 + 1, 2 ** 18 + 37, 2 ** 20 + 1]
             for n in sizes:
@@ -244,7 +248,7 @@ def stream_large(ctx):
                             ctx.fail(case, f"split-consistency: {label} on {n} items: output item {n - 64 + bad[-1]} (one of the last n % 2^k items) is "
                                            f"{full[n - 64 + bad[-1]].flatten()[:4].tolist()}, the op on the last 64 items alone gives {tail[bad[-1]].flatten()[:4].tolist()}")
                             continue
-                    cuts = (1, n // 2 + 1, n - 1) if not ctx.quick else (n // 2 + 1, n - 1)
+                    cuts = (1, n // 2 + 1, n - 1) if not ctx.quick else ((n // 2 + 1, n - 1) if ei % 2 else (n // 2 + 1,))
                     if n > 2 ** 17:
                         cuts = () if ctx.quick else (n // 2 + 1,)        # quick: the tail block and the single items below only
                     for a in cuts:
